@@ -8,6 +8,15 @@ pub fn eval(p: &Prog) -> (String, Option<String>, bool, u64) {
     let out = run_prog(p);
     let fuel = model_fuel(&out);
     let line = show_run(&out, false);
+    // the property speaks about goals INSIDE `dfs { }`: a program whose body is not one depth-first block (a replayed or
+    // shrunk case line that lost its `dfs`) is outside it — the interleaving order is not the Prolog order and need not be
+    if !(p.body.len() == 1 && matches!(p.body[0], PG::Dfs(_) | PG::DfsC(_))) {
+        let fail = match &out {
+            RunOut::Panic(s) => Some(format!("panic at {}", s)),
+            _ => None,
+        };
+        return (line, fail, false, fuel);
+    }
     let answers = match &out {
         RunOut::Answers(a, _) => a,
         RunOut::Budget(a) => {
